@@ -168,6 +168,8 @@ fn emit_scan(sink: &mut Sink, src: &str, tgt: &str, input: &[u8], index: usize, 
     let n = input.len() - index;
     let lenc = if n < 8 { "<8" } else if n < 16 { "<16" } else { ">=16" };
     sink.case("scan", &[src, tgt, &hexf(input), &index.to_string()], &o, &format!("scan-{}-{}{}:{}:rest{}", tag, src, tgt, cls, lenc), n > 0);
+    // a literal scanned into ByteBuf from the start of a slice: also as a bytes-typed object KEY (op rsk)
+    if tgt == "B" && src == "b" && index == 1 { let mut r = Rng::new(input.len() as u64); crate::keys::emit_rsk(sink, &mut r, &crate::obs::cfg_tag(), input, "scan"); }
 }
 
 /// `bytesctl <cfg> <src> <input> => OK:y<hex>; | E:<hex msg>:<cat>:<line>:<col>` — a string literal holding a BARE control character read as
@@ -311,6 +313,8 @@ pub fn run(sink: &mut Sink, thorough: bool, seed: u64) {
         let surro = (0xd7f0..0xe010).contains(&v);
         if thorough || v % 4 == 0 || surro { emit_hex4s(sink, "b", &gm, "all"); }
         if thorough || v % 16 == 1 || surro { emit_hex4s(sink, "s", &gu, "all"); emit_hex4s(sink, "r", &gl, "all"); }
+        // the same group as a bytes-typed object KEY (op rsk): every surrogate-adjacent value, a 32nd of the others
+        if thorough || v % 32 == 7 || (surro && v % 4 == 0) { crate::keys::emit_rsk(sink, &mut r, &crate::obs::cfg_tag(), &literal(&gm), "hex4"); }
     }
     // ---------------- hex4: all 256 substitutions at each of the 4 positions of several base groups
     for base in [*b"0000", *b"ffff", *b"1a2B", *b"D834", *b"dC00", *b"9F09", *b"aAfF"] {
